@@ -12,7 +12,7 @@ theorem holds for every `Env`.
 -/
 import TraitsVerif.Lemmas.ValOrder
 import TraitsVerif.Lemmas.ValCSrc7
-import TraitsVerif.Lemmas.ValPySrc3
+import TraitsVerif.Lemmas.ValPySrc4
 import TraitsVerif.Generated.ValidateTables
 namespace TraitsVerif.Props.C03
 open TraitsVerif TraitsVerif.Py.Value TraitsVerif.Model.Val
@@ -317,16 +317,18 @@ theorem C03_fast_is_source_tuple (E : Env) (hA : AdaptSome E) (cdflt : Val) (fue
 
 open TraitsVerif.Model.PyVSrc in
 /-- `pyValidate` is the interpretation of the source text of the Python `validate` methods:
-for every covered trait type (`pyCovered3`: Int, Float, Complex, Str, Bytes, Bool, CInt …
+for every covered trait type (`pyCovered4`: Int, Float, Complex, Str, Bytes, Bool, CInt …
 CBool, float and int Range with every bound / exclusivity combination (NaN included), Enum, Map,
-Instance in every adapt mode, Type, This, the None member of Union, and their Base* classes)
-and every value,
+Instance in every adapt mode, Type, This, Callable (through its super() call), the None member
+of Union, typed Tuple (the generator over zip(types, value)), Union and TraitCompound (validate
+and slow_validate: the loops over the alternatives), and their Base* classes) and every value
+(`noTE`: no member validator yields the junk result `raised traitError`),
 running the translated method of trait_types.py the handler's class defines, with the
 attributes its constructor stored, gives exactly `pyValidate E t v`. -/
 theorem C03_py_is_source (E : Env) (hE : CastIdem E) (hA : TraitsVerif.Model.CSrc.AdaptSome E)
-    (t : TraitType) (v : Val) (h : pyCovered3 t = true) :
+    (t : TraitType) (v : Val) (h : pyCovered4 t = true) (hn : noTE E t v) :
     srcPy E t v = some (pyValidate E t v) :=
-  srcPy_eq3 E hE hA t v h
+  srcPy_eq4 E hE hA t v h hn
 
 open TraitsVerif.Model.CSrc TraitsVerif.Model.PyVSrc in
 /-- The property statement literally about the two SOURCES: under the conditions of
@@ -337,12 +339,33 @@ theorem C03_sources_agree_partial (E : Env) (hE : CastIdem E) (hA : AdaptSome E)
     (inner : Desc → Val → Res) (cdflt : Val) (fuel : Nat) (t : TraitType) (d : Desc) (v : Val)
     (hd : descOf E t = some d) (hc : t.clean = true) (hv : v.notTupleSub = true)
     (hr : ∀ e, pyValidate E t v ≠ .raised e) (hok : descOk E inner cdflt fuel d)
-    (hp : pyCovered3 t = true) :
+    (hp : pyCovered4 t = true) (hn : noTE E t v) :
     srcAlone E inner cdflt fuel d v = (srcPy E t v).map norm := by
   rw [C03_source_agrees_python_partial E hE hA inner cdflt fuel t d v hd hc hv hr hok,
-    C03_py_is_source E hE hA t v hp]
+    C03_py_is_source E hE hA t v hp hn]
   rfl
 
-example : TraitsVerif.Model.PyVSrc.pyCovered3 (.noFast (.rangeI (some 0) none true false)) = true := rfl
+example : TraitsVerif.Model.PyVSrc.pyCovered4 (.noFast (.rangeI (some 0) none true false)) = true := rfl
+
+open TraitsVerif.Model.PyVSrc in
+/-- "A compound accepts iff some alternative accepts, with the result of the first accepting
+alternative" as a statement about the interpreted PYTHON source: `Union.validate` and
+`TraitCompound.validate` (+ `slow_validate`), run on their translated text, return the first
+result that is not a TraitError among the member validators in order (for a TraitCompound:
+the members with a fast validator first, then the others), TraitError if there is none. -/
+theorem C03_py_compound_first_source (E : Env) (v : Val) :
+    (∀ alts, (∀ t ∈ alts, ctraitValidate E t v ≠ .raised .traitError) →
+      srcPy E (.union alts) v = some (firstOk v (alts.map (fun t => ctraitValidate E t)))) ∧
+    (∀ hs, (∀ t ∈ hs, pyValidate E t v ≠ .raised .traitError) →
+      srcPy E (.compoundH hs) v = some (firstOk v
+        ((hs.filter (fun t => (descOf E t).isSome)).map (fun t => pyValidate E t) ++
+         (hs.filter (fun t => !(descOf E t).isSome)).map
+           (fun t x => if hasPy t then pyValidate E t x else .ok x)))) :=
+  ⟨fun alts h => srcPy_union_first E alts v h, fun hs h => srcPy_compound_first E hs v h⟩
+
+example : TraitsVerif.Model.PyVSrc.noTE E0 (.union [.int, .str]) (Val.ofInt 1) := by
+  intro t ht
+  simp at ht
+  rcases ht with rfl | rfl <;> decide
 
 end TraitsVerif.Props.C03
